@@ -155,6 +155,21 @@ Theorem C20i_guard_none :
 Proof. exact @guard_none_lemma. Qed.
 Print Assumptions C20i_guard_none.
 
+(* The known finding of the API level (C20_known_large_ndim, key
+   topology-ndim-over-64) as the instruction shows it: with 65 or more
+   dimensions after clamping (hence 65 or more cells) no neighbourhood is
+   computed — the operands are consumed and nothing is pushed, e.g.
+   `1.0 70 50 100 LIST.NEIGHBOR*IDS`. *)
+Theorem C20i_known_large_ndim :
+  forall (FO : FloatOps) (p : profile) (s : state) (size index dims : Z) (rest : list Z) (fv : f32) (frest : list f32),
+    st_int s = size :: index :: dims :: rest ->
+    st_float s = fv :: frest ->
+    size <= max32 ->
+    65 <= Z.max (Z.min (Z.max size 0) dims) 0 ->
+    list_neighbor_ids p s = Ok (set_float (set_int s rest) frest).
+Proof. exact @known_large_ndim_instr_lemma. Qed.
+Print Assumptions C20i_known_large_ndim.
+
 (* The registry binds the four names to these bodies: an interpreter step on
    the instruction runs the body on the state without the instruction. *)
 Theorem C20i_registered :
